@@ -741,6 +741,14 @@ func (i *instance) skipToRound(round uint64, chain *ECChain, justification *Just
 	metrics.currentRound.Record(context.TODO(), int64(i.current.Round))
 	metrics.skipCounter.Add(context.TODO(), 1, metric.WithAttributes(attrSkipToRound))
 
+	if i.current.Phase == QUALITY_PHASE {
+		// The QUALITY phase is cut short by the skip. Settle its outcome the way its
+		// timeout would, so that the proposal carried into CONVERGE and the candidate
+		// set reflect the QUALITY votes received so far. Otherwise the candidate set
+		// holds only the base and no CONVERGE value (not even our own) is acceptable.
+		i.proposal = i.quality.FindStrongQuorumValueForLongestPrefixOf(i.input)
+		i.addCandidatePrefixes(i.proposal)
+	}
 	if justification.Vote.Phase == PREPARE_PHASE {
 		i.log("⚠️ swaying from %s to %s by skip to round %d", i.proposal, chain, i.current.Round)
 		i.addCandidate(chain)
